@@ -1,15 +1,19 @@
 import Nice.Drv.Timer
 import Nice.Drv.Kern
+import Nice.Drv.Prio
 open Nice.Drv
 
 structure St where
   timer : Nice.Timer.Timer := { dlSec := 0, dlUsec := 0, delay := 0, retrans := 0, maxRetrans := 0 }
+  prio : PrioSt := {}
 
 def step (s : St) (line : String) : St × String :=
   match words line with
   | "timer" :: ws => let (t, o) := timerStep s.timer ws; ({ s with timer := t }, o)
   | ["reset"] => ({}, "reset")
   | "k" :: ws => (s, kernStep ws)
+  | "prio" :: ws => (s, prioStep ws)
+  | "plist" :: ws => let (p, o) := plistStep s.prio ws; ({ s with prio := p }, o)
   | _ => (s, "bad-op")
 
 partial def loop (h : IO.FS.Stream) (out : IO.FS.Stream) (s : St) : IO Unit := do
